@@ -1,5 +1,10 @@
 """C10 Reports round-trip losslessly from `group` to the dedupe commands (shape I, engine E3 + binary cross-check)."""
+import os
+
+from .. import common as C
+from .. import dedupelab as D
 from .. import unitcheck as U
+from . import c02
 
 ID = "C10"
 LEVEL = "exploration"
@@ -7,7 +12,8 @@ RULE = ("file names of 1..L symbols over {a, space, tab, LF, CR, ', \", \\, #, z
         "thorough) in first/last position of a group; group shapes 1x1,1x2,2x2,3x1,0x0 x lengths {0,1,2^40} x hash "
         "sizes 16/32/64; base dirs over the same alphabet (<=2 symbols); 6 timestamps x small/large statistics; "
         "command vectors of <=2 arguments over the C17 alphabet; text and JSON; written by ReportWriter, read by "
-        "open_report; plus every byte truncation point of six fixed reports (1-3 groups, LF/CRLF, text/JSON). "
+        "open_report; plus every byte truncation point of six fixed reports (1-3 groups, LF/CRLF, text/JSON); binary cross-check: 30 "
+        "hostile names as real files through `group` -> report -> `remove --dry-run`. "
         "Non-trivial = a round trip or truncation point that was actually written and read back; "
         "distinct_nontrivial counts them (all cases are distinct by construction).")
 ASSUMPTIONS = ["the 'randomly over long strings' clause is not covered",
@@ -17,16 +23,57 @@ SHARDS = 16
 
 def prepare(tier):
     U.build()
+    C.build_hooks()
 
 
 def cases(tier, seed):
     L = 3 if tier == "quick" else 4
     out = [{"mode": "roundtrip", "names": L, "shard": "%d/%d" % (i, SHARDS)} for i in range(SHARDS)]
     out.append({"mode": "truncate"})
+    # binary cross-check: real files with hostile names -> group -> report (text / JSON) -> remove --dry-run
+    for i in range(0, len(c02.HOSTILE), 5):
+        for fmt in ("default", "json"):
+            out.append({"mode": "binary", "names": c02.HOSTILE[i:i + 5], "fmt": fmt})
     return out
 
 
+def evaluate_binary(case):
+    """Ties the in-process round trip to what the dedupe commands act on: the files named by `remove --dry-run`
+    must be exactly the reported paths minus the first of each group, byte for byte."""
+    viol = []
+    n = 0
+    with C.Scratch() as sc:
+        tree = []
+        for i, name in enumerate(case["names"]):
+            tree.append({"p": "d%d/%s" % (i, name), "k": "file", "c": ["lit", "content-%d" % i]})
+            tree.append({"p": "e%d/%s" % (i, name), "k": "file", "c": ["lit", "content-%d" % i]})
+        C.make_tree(sc.tree, tree)
+        report = D.make_report(sc, [], ["."], fmt=case["fmt"])
+        rep = D.report_groups(report)
+        expected = set()
+        for g in rep.groups:
+            expected.update(g["paths"][1:])
+        on_disk = set(sc.path(e["p"]) for e in tree)
+        listed = set(p for g in rep.groups for p in g["paths"])
+        if listed != on_disk:
+            viol.append({"kind": "path_changed", "format": case["fmt"], "what": "binary_group_report",
+                         "detail": "report lists %r, files on disk %r" % (sorted(listed - on_disk)[:3], sorted(on_disk - listed)[:3])})
+        r = D.run_dedupe(sc, "remove", [], report, dry_run=True)
+        if r["rc"] != 0:
+            viol.append({"kind": "read_error", "format": case["fmt"], "what": "binary_remove_dry_run", "detail": r["err"][-300:]})
+        else:
+            got = set(o["file"] for o in D.parse_script(r["out"]))
+            n = len(got)
+            if got != expected:
+                viol.append({"kind": "path_changed", "format": case["fmt"], "what": "binary_remove_dry_run",
+                             "detail": "dry-run names %r, report says %r" % (sorted(got - expected)[:3], sorted(expected - got)[:3])})
+    return {"violations": viol, "evaluations": 1, "counters": {"nontrivial": 1, "binary_cases": 1, "binary_paths": n},
+            "outcome": "binary", "sample": {"case": {"mode": "binary", "fmt": case["fmt"], "names": [repr(x) for x in case["names"]]}}}
+
+
 def evaluate(case):
+    if case.get("mode") == "binary":
+        return evaluate_binary(case)
     if "one" in case:
         viol, summ = U.run_unit(["report", "--one-" + case["one"], case["hex"]])
     elif case["mode"] == "truncate":
